@@ -11,11 +11,11 @@ ID = 'C08'
 ENGINE = 'E1 full product'
 RULE = ("full product dtype x width {scalar,1,3} x cast x user DIMENSION {unset, equal, different} x user "
         "ELEMENT-LIMIT {unset, equal, larger, more dimensions, smaller} x topology {plain, channel shared by two frames, "
-        "extra channel outside frames, one dataset under two channel names, three channels} x source {inline, dict}; "
+        "extra channel outside frames, one dataset under two channel names in two frames / in one frame with different casts, three channels} x source {inline, dict}; "
         "inconsistent user values must raise; otherwise descriptors are read from the file and must slice every "
         "record; non-trivial = file written and descriptors compared")
 ASSUMPTIONS = ["strict reader mc/rp66.py", "reference model mc/model.py"]
-TOPO = ['plain', 'shared', 'extra', 'alias', 'three']
+TOPO = ['plain', 'shared', 'extra', 'alias', 'alias-same-frame', 'three']
 
 
 def shards(tier):
@@ -84,6 +84,13 @@ def make_spec(c):
         ops.append({'op': 'dsname', 'h': 'C1', 'value': 'CH-T'})
         ops.append(S.op_add('frame', 'F0', 'FR0', channels=[{'$ref': 'C0'}]))
         ops.append(S.op_add('frame', 'F1', 'FR1', channels=[{'$ref': 'C1'}]))
+    elif t == 'alias-same-frame':
+        # a second channel of the SAME frame reads the same dataset but with another cast (or none)
+        other = None if c['cast'] else CASTS[c['dtype']][1]
+        ops.append(S.op_add('channel', 'C1', 'CH-ALIAS', **({'cast_dtype': {'$dtype': other}} if other else {})))
+        ops.append({'op': 'dsname', 'h': 'C1', 'value': 'CH-T'})
+        chan('C2', 'IDX', idx)
+        ops.append(S.op_add('frame', 'F0', 'FR0', channels=[{'$ref': 'C2'}, {'$ref': 'C0'}, {'$ref': 'C1'}]))
     elif t == 'three':
         chan('C1', 'IDX', idx)
         chan('C2', 'TAIL', S.arr_spec('uint16', [rows, 2], [1, 2, 3, 4]))
